@@ -29,26 +29,43 @@ CLAIMED = {
             "verdict (code, device contacted) for the full single-field mutation matrix.",
             "partial: zone agreement for message/auth/brothers is decided by the exhaustive mutation matrix "
             "(correspondence + oracle), not by a theorem; Spec/C02.lean is a trusted reading of the documents"),
-    "C03": ("Lean theorems: handle_request always returns an object with an integer errorcode; every line "
-            "(incl. undecodable ones) is answered; histories keep serving while no exception escapes a "
-            "handler (…_partial). The remaining half — no exception escapes while the device conforms — is "
-            "decided by the differential correspondence run of the full manager model against the real "
-            "server/protocol/dongle code with the oracle Spec.c03 on the implementation's output, per line and over "
-            "whole manager lifetimes (op `history`: 2..8 mixed lines on one manager and one device with link / "
-            "status faults and repairs, against the model's `serve`).",
-            "partial: exception-safety under a conforming device is validated by correspondence, not proved; "
-            "JSON grammar and python-bitcoinlib (shim) are trusted"),
-    "C04": ("Lean theorems over the tables the translator regenerates from the source on every run: every "
-            "result of the advance / update / sign translations is a code docs/protocol.md lists for that "
-            "command (for every status word and every result, via a lookup-with-default lemma); for every "
-            "status whose cause the documentation names, at the step where the firmware raises it, the tables "
-            "yield that very code (named_cause_tables, by decide over the generated tables); Python enums equal "
-            "the firmware headers; opcode and range constants as specified. The oracle Spec.C04.c04 (documented "
-            "code, 0/1 only on device success, named cause, error-range status never stops the manager) is "
-            "evaluated on the implementation's output for the status x step matrix.",
-            "partial: the composition 'status at step k of the real exchange reaches the table lookup' is the "
-            "model's control flow, tied to the code by the correspondence matrix (pages 0x69-0x6D complete at every "
-            "step kind, all 65536 words for one step kind of sign and of advance, in thorough); namedCause is a trusted reading of firmware headers and docs"),
+    "C03": ("Lean theorems, full statement for the model of the whole manager (comm/server.py line handling, "
+            "comm/protocol.py gate + validators, ledger/protocol*.py handlers, ledger/hsm2dongle.py operations): with "
+            "no link repair pending and a device that keeps to its protocol (Spec.deviceConforms: per-(APDU, answer) "
+            "predicate), no Python exception leaves handle_request, the reply is a JSON object with an integer "
+            "errorcode, the server is not shut down and no repair is pending afterwards - for every JSON value, both "
+            "protocol modes, every script (request_answered, line_answered), and by induction for every sequence of "
+            "lines over one manager lifetime (histories_answered); line_meets_oracle: the model's observation always "
+            "satisfies the oracle Spec.c03 that the check evaluates on the implementation. Proof: a program logic "
+            "over the scripted-environment monad (Proofs/Conform*.lean: Tracks = one script entry per APDU, for every "
+            "computation of the model; Safe = returns or raises only what the caller handles), induction over the "
+            "script for chunked transfers and over block / brother lists. Unconditional theorems kept: "
+            "handle_request always returns an object with an integer errorcode; every line is answered. The model is "
+            "tied to the real server/protocol/dongle code by the differential runs (per line, hostile lines, whole "
+            "lifetimes) with the same oracle on the implementation's output.",
+            "side condition Bounded: a `blocks` array has fewer than 2^32 members; that CPython raises no exception "
+            "the model does not know of is validated by the correspondence streams, not derived from CPython's "
+            "semantics; JSON grammar and python-bitcoinlib (shim) are trusted"),
+    "C04": ("Lean theorems. For the whole manager model, whatever the request (any JSON), the protocol mode and the "
+            "device's behaviour (every script: any status word, time-out, link error or malformed answer at any "
+            "step): a reply of handle_request carries an integer result code which, for a request naming one of "
+            "the ten commands, is one docs/protocol*.md lists for that command or a generic 9xx code "
+            "(reply_code_documented: codes of the gate, of each validator and of each handler read off the model's "
+            "control flow in Proofs/Codes.lean, then command_codes_documented by decide over the generated code and "
+            "document tables); an error status inside the device's own range at any step - and every other "
+            "behaviour the device protocol allows - never stops the manager (error_range_never_stops, from the C03 "
+            "program logic). Over the tables the translator regenerates from the source on every run: every "
+            "result of the advance / update / sign translations is a documented code (for every status word and "
+            "every result, via a lookup-with-default lemma); for every status whose cause the documentation names, "
+            "at the step where the firmware raises it, the tables yield that very code (named_cause_tables, by "
+            "decide over the generated tables); Python enums equal the firmware headers; opcode and range "
+            "constants as specified. The oracle Spec.C04.c04 (documented code, 0/1 only on device success, named "
+            "cause, error-range status never stops the manager) is evaluated on the implementation's output for "
+            "the status x step matrix, also after the same manager served another command.",
+            "partial: '0/1 exactly on the device's total/partial success' and 'the named cause reaches the table "
+            "lookup at step k of the real exchange' are the model's control flow, tied to the code by the "
+            "correspondence matrix (pages 0x69-0x6D complete at every step kind, all 65536 words for one step kind "
+            "of sign and of advance, in thorough); namedCause is a trusted reading of firmware headers and docs"),
     "C05": ("Lean theorems for every device behaviour (every script): the block operation announces the client's "
             "block count and then, for a prefix of the client's blocks in the client's order, sends each block's "
             "metadata message (operation, BE16 merge-mining payload size, coinbase hash for advance) followed by "
